@@ -212,7 +212,7 @@ Definition ingest1 (room : N) (acc : state * list lkey) (sn : snode) : state * l
       then (s, ms)
       else (set_tables s (replace_first (fun n => N.eqb (n_id n) (sn_id sn)) n' (nodes s)) (ndels s) (edels s) (edges s),
             ms ++ (match n_room old with
-                   | Some ro => [(ro, sn_ent sn, day (n_mdate old))]
+                   | Some ro => if N.eqb ro room then [] else [(ro, sn_ent sn, day (n_mdate old))]
                    | None => [] end) ++ [(room, sn_ent sn, day (sn_mdate sn))])
   | None => (set_tables s (nodes s ++ [n']) (ndels s) (edels s) (edges s),
              ms ++ [(room, sn_ent sn, day (sn_mdate sn))])
